@@ -2,6 +2,7 @@ package main
 
 import (
 	"fmt"
+	"math/big"
 	"strconv"
 	"strings"
 )
@@ -31,6 +32,26 @@ func (s *tokStream) num() (int, error) {
 		return 0, fmt.Errorf("bad number %q", t)
 	}
 	return n, nil
+}
+
+// amount: a decimal natural number of any size
+func (s *tokStream) amount() (int, *big.Int, error) {
+	t, err := s.next()
+	if err != nil {
+		return 0, nil, err
+	}
+	return parseAmount(t)
+}
+
+func parseAmount(t string) (int, *big.Int, error) {
+	v, ok := new(big.Int).SetString(t, 10)
+	if !ok || v.Sign() < 0 || (len(t) > 1 && t[0] == '0') || t[0] == '+' {
+		return 0, nil, fmt.Errorf("bad amount %q", t)
+	}
+	if v.IsInt64() && v.Int64() < 1<<53 {
+		return int(v.Int64()), nil, nil
+	}
+	return 0, v, nil
 }
 
 func parseFrame(s *tokStream) (*frame, error) {
@@ -94,7 +115,7 @@ func parseFrame(s *tokStream) (*frame, error) {
 			if a.addr, err = s.next(); err != nil {
 				return nil, err
 			}
-			if a.value, err = s.num(); err != nil {
+			if a.value, a.vbig, err = s.amount(); err != nil {
 				return nil, err
 			}
 			if a.body, err = parseFrame(s); err != nil {
@@ -114,7 +135,7 @@ func parseFrame(s *tokStream) (*frame, error) {
 			if a.salt, err = s.num(); err != nil {
 				return nil, err
 			}
-			if a.value, err = s.num(); err != nil {
+			if a.value, a.vbig, err = s.amount(); err != nil {
 				return nil, err
 			}
 			if a.body, err = parseFrame(s); err != nil {
@@ -135,7 +156,7 @@ func parseFrame(s *tokStream) (*frame, error) {
 			if a.addr, err = s.next(); err != nil {
 				return nil, err
 			}
-			if a.value, err = s.num(); err != nil {
+			if a.value, a.vbig, err = s.amount(); err != nil {
 				return nil, err
 			}
 			if a.body, err = parseFrame(s); err != nil {
@@ -191,11 +212,11 @@ func parseReset(t []string) (*block, error) {
 			return nil, fmt.Errorf("bad account")
 		}
 		n, e1 := strconv.Atoi(t[i+1][1:])
-		bal, e2 := strconv.Atoi(t[i+2])
+		bal, bbig, e2 := parseAmount(t[i+2])
 		if e1 != nil || e2 != nil || !strings.Contains("ehmp", t[i]) || len(t[i]) != 1 {
 			return nil, fmt.Errorf("bad account")
 		}
-		b.accounts = append(b.accounts, acct{t[i], n, bal})
+		b.accounts = append(b.accounts, acct{kind: t[i], n: n, balance: bal, bbig: bbig})
 	}
 	return b, nil
 }
@@ -213,13 +234,13 @@ func parseTx(t []string, blk *block) (*txn, error) {
 	switch t[3] {
 	case "call":
 		tx.target = t[4]
-		if tx.value, err = strconv.Atoi(t[5]); err != nil {
+		if tx.value, tx.vbig, err = parseAmount(t[5]); err != nil {
 			return nil, err
 		}
 		s.i = 6
 	case "create":
 		tx.create = true
-		if tx.value, err = strconv.Atoi(t[4]); err != nil {
+		if tx.value, tx.vbig, err = parseAmount(t[4]); err != nil {
 			return nil, err
 		}
 		s.i = 5
